@@ -19,6 +19,77 @@ unsafe extern "C" {
     fn __real_sqlite3_reset(stmt: *mut c_void) -> c_int;
     fn __real_sqlite3_finalize(stmt: *mut c_void) -> c_int;
     fn __real_sqlite3_unlock_notify(db: *mut c_void, cb: Option<unsafe extern "C" fn(*mut *mut c_void, c_int)>, arg: *mut c_void) -> c_int;
+    fn __real_sqlite3_extended_errcode(db: *mut c_void) -> c_int;
+}
+
+// ---------------------------------------------------------------------------------------------
+// fault: a statement fails as if the VFS had reported an error (disk full, I/O error, busy). The
+// statement is NOT executed (what a journaled database guarantees for a failed statement); the
+// wrapper returns the error code from `sqlite3_step` and answers the connection's next
+// `sqlite3_extended_errcode` with the same code (sqlx builds its error from that call).
+
+/// (connection, code) of injected failures whose code has not been fetched yet
+static INJECTED: Mutex<Vec<(usize, c_int)>> = Mutex::new(Vec::new());
+/// injected statement failures / of which inside an explicit transaction (reach probes)
+pub static FAILED: AtomicU64 = AtomicU64::new(0);
+pub static FAILED_IN_TX: AtomicU64 = AtomicU64::new(0);
+/// pass-through mode (turnstile disabled): the statement that brings this countdown to zero fails
+/// with `PASS_CODE`; negative = off
+static PASS_COUNTDOWN: std::sync::atomic::AtomicI64 = std::sync::atomic::AtomicI64::new(-1);
+static PASS_CODE: std::sync::atomic::AtomicI32 = std::sync::atomic::AtomicI32::new(10);
+
+pub const FAULT_CODES: [c_int; 3] = [13 /* SQLITE_FULL */, 10 /* SQLITE_IOERR */, 5 /* SQLITE_BUSY */];
+
+/// Pass-through mode: fail the (k+1)-th statement from now on that is not transaction control.
+pub fn fail_after(k: Option<u32>, code: c_int) {
+    PASS_CODE.store(code, Ordering::SeqCst);
+    PASS_COUNTDOWN.store(k.map(|k| k as i64).unwrap_or(-1), Ordering::SeqCst);
+    if k.is_none() {
+        INJECTED.lock().unwrap().clear();
+    }
+}
+
+/// Transaction control and pragmas are never failed: a failed COMMIT leaves sqlx's own
+/// transaction-depth bookkeeping, not the store, in charge of what happens next.
+pub fn can_fail(sql: &str) -> bool {
+    let head: String = sql.trim_start().chars().take(9).collect::<String>().to_ascii_uppercase();
+    !(head.starts_with("BEGIN") || head.starts_with("COMMIT") || head.starts_with("ROLLBACK") || head.starts_with("SAVEPOINT") || head.starts_with("RELEASE") || head.starts_with("PRAGMA") || head.starts_with("END"))
+}
+
+fn inject(stmt: *mut c_void, code: c_int) -> c_int {
+    let db = unsafe { sqlite3_db_handle(stmt) };
+    FAILED.fetch_add(1, Ordering::Relaxed);
+    if unsafe { sqlite3_get_autocommit(db) } == 0 {
+        FAILED_IN_TX.fetch_add(1, Ordering::Relaxed);
+    }
+    let mut g = INJECTED.lock().unwrap();
+    g.retain(|(d, _)| *d != db as usize);
+    g.push((db as usize, code));
+    code
+}
+
+#[unsafe(no_mangle)]
+pub unsafe extern "C" fn __wrap_sqlite3_extended_errcode(db: *mut c_void) -> c_int {
+    {
+        let mut g = INJECTED.lock().unwrap();
+        if let Some(i) = g.iter().position(|(d, _)| *d == db as usize) {
+            return g.swap_remove(i).1;
+        }
+    }
+    unsafe { __real_sqlite3_extended_errcode(db) }
+}
+
+fn expanded(stmt: *mut c_void) -> String {
+    unsafe {
+        let p = sqlite3_expanded_sql(stmt);
+        if p.is_null() {
+            String::from("?")
+        } else {
+            let s = CStr::from_ptr(p).to_string_lossy().to_string();
+            sqlite3_free(p as *mut c_void);
+            s
+        }
+    }
 }
 
 /// SQLITE_LOCKED | (1 << 8)
@@ -45,6 +116,8 @@ struct Waiter {
     ticket: u64,
     sql: String,
     granted: bool,
+    /// Some(code): when granted, the statement fails with this code instead of executing
+    fail: Option<c_int>,
     db: usize,
 }
 
@@ -147,11 +220,17 @@ pub fn snapshot() -> Snapshot {
 
 /// Let the waiting statement with this expanded SQL proceed; returns once its step has returned.
 pub fn grant_and_wait(sql: &str) {
-    tr(format!("grant {}", sql.chars().take(24).collect::<String>()));
+    grant_and_wait_with(sql, None)
+}
+
+/// As `grant_and_wait`; with `Some(code)` the statement fails with that code instead of executing.
+pub fn grant_and_wait_with(sql: &str, fail: Option<c_int>) {
+    tr(format!("grant {} fail={fail:?}", sql.chars().take(24).collect::<String>()));
     let mut g = STATE.lock().unwrap();
     let before = g.finished;
     if let Some(w) = g.waiting.iter_mut().find(|w| !w.granted && w.sql == sql) {
         w.granted = true;
+        w.fail = fail;
         g.running += 1;
     } else {
         return;
@@ -167,7 +246,17 @@ pub unsafe extern "C" fn __wrap_sqlite3_step(stmt: *mut c_void) -> c_int {
     // only the FIRST step of a statement execution is a scheduling point: the remaining steps of
     // a multi-row read proceed freely (they cannot change the database)
     let first = unsafe { sqlite3_stmt_busy(stmt) } == 0;
+    if first {
+        // a new statement on this connection: an injected code nobody fetched is forgotten
+        let db = unsafe { sqlite3_db_handle(stmt) } as usize;
+        INJECTED.lock().unwrap().retain(|(d, _)| *d != db);
+    }
     if !ENABLED.load(Ordering::SeqCst) {
+        if first && PASS_COUNTDOWN.load(Ordering::SeqCst) >= 0 && can_fail(&expanded(stmt)) {
+            if PASS_COUNTDOWN.fetch_sub(1, Ordering::SeqCst) == 0 {
+                return inject(stmt, PASS_CODE.load(Ordering::SeqCst));
+            }
+        }
         return unsafe { __real_sqlite3_step(stmt) };
     }
     if !first {
@@ -178,16 +267,7 @@ pub unsafe extern "C" fn __wrap_sqlite3_step(stmt: *mut c_void) -> c_int {
         }
         return r;
     }
-    let sql = unsafe {
-        let p = sqlite3_expanded_sql(stmt);
-        if p.is_null() {
-            String::from("?")
-        } else {
-            let s = CStr::from_ptr(p).to_string_lossy().to_string();
-            sqlite3_free(p as *mut c_void);
-            s
-        }
-    };
+    let sql = expanded(stmt);
     let ticket = {
         let mut g = STATE.lock().unwrap();
         if take_transit_flag() {
@@ -200,17 +280,19 @@ pub unsafe extern "C" fn __wrap_sqlite3_step(stmt: *mut c_void) -> c_int {
             g.dbs.push(db);
         }
         g.lock_waiting_dbs.retain(|d| *d != db);
-        g.waiting.push(Waiter { ticket: t, sql, granted: false, db });
+        g.waiting.push(Waiter { ticket: t, sql, granted: false, fail: None, db });
         t
     };
     CV.notify_all();
+    let mut fail: Option<c_int> = None;
     {
         let mut g = STATE.lock().unwrap();
         loop {
             if !ENABLED.load(Ordering::SeqCst) {
                 break;
             }
-            if g.waiting.iter().any(|w| w.ticket == ticket && w.granted) {
+            if let Some(w) = g.waiting.iter().find(|w| w.ticket == ticket && w.granted) {
+                fail = w.fail;
                 break;
             }
             g = CV.wait(g).unwrap();
@@ -218,7 +300,10 @@ pub unsafe extern "C" fn __wrap_sqlite3_step(stmt: *mut c_void) -> c_int {
     }
     GATED.fetch_add(1, Ordering::Relaxed);
     tr(format!("step begin ticket={ticket}"));
-    let r = unsafe { __real_sqlite3_step(stmt) };
+    let r = match fail {
+        Some(code) => inject(stmt, code),
+        None => unsafe { __real_sqlite3_step(stmt) },
+    };
     tr(format!("step end ticket={ticket} r={r}"));
     {
         let mut g = STATE.lock().unwrap();
